@@ -2,14 +2,21 @@ package main
 
 import (
 	"fmt"
+	"os"
 	"sync"
 	"time"
 )
 
-// watchdogLimit is the wall-clock horizon after which a library call counts as a hang. Generous on purpose: the
-// slowest legitimate call of this check (a LogN=16 parameter set with ~30 primes) takes ~2 s on an idle core, and the
-// machine may be heavily loaded. A hang is a *verdict* only for calls that legitimately need milliseconds.
-const watchdogLimit = 20 * time.Second
+// watchdogLimit is the wall-clock horizon after which a library call counts as a hang. Generous on purpose: every
+// guarded call of this check works on rings of degree <= 2^12 and needs at most a few tens of milliseconds on an idle
+// core (the LogN=15/16 shipped sets are instantiated outside the watchdog), so 12 s is > 100x even on a loaded or
+// 3x slower machine; VERIF_C19_WATCHDOG=30s overrides it. A hang is a *verdict* only for calls that legitimately need milliseconds.
+var watchdogLimit = func() time.Duration {
+	if v, err := time.ParseDuration(os.Getenv("VERIF_C19_WATCHDOG")); err == nil && v > 0 {
+		return v
+	}
+	return 12 * time.Second
+}()
 
 type callResult struct {
 	err      error
